@@ -91,6 +91,7 @@ def chunks(tier):
     out = [("R", a, b) for a in range(9) for b in range(9)]
     out.append(("S1",))
     out.append(("Z",))
+    out.append(("BIG",))
     out += [("H", i) for i in range(len(POOL3))]
     n = len(t["pool"])
     out += [("S", i, j) for i in range(n) for j in range(i + 1, n)]
@@ -593,6 +594,11 @@ def run_chunk(chunk, tier):
         res.sample(dict(layer="H", reaction=_rt_str(POOL3[chunk[1]], "k"), params=[str(x) for x in HIST_K]))
     elif chunk[0] == "R":
         _run_R(res, chunk, tier)
+    elif chunk[0] == "BIG":
+        for variant in (0, 1):
+            for kmode, vkind in (("int", "int"), ("int", "frac"), ("float", "float")):
+                _check_big(res, variant, kmode, vkind)
+        res.sample(dict(layer="BIG", substances=len(BIG_S), reactions=[len(_big_system(v)) for v in (0, 1)]))
     elif chunk[0] == "Z":
         for za in range(len(ZORD)):
             for zb in range(len(ZORD)):
@@ -612,6 +618,68 @@ def run_chunk(chunk, tier):
     else:
         raise ValueError(chunk)
     return res
+
+
+# ------------------------------------------------------------------------------------------------- layer BIG
+BIG_S = "ABCDEFGHIJKLM"
+
+
+def _big_system(variant):
+    """13 substances, 16-20 reactions: a hub substance (A) taking part in 11-17 of them, autocatalytic steps (a species on both
+    sides with a non-zero net), inactive parts doubling an active species, a species produced by many reactions"""
+    rts = []
+    others = BIG_S[1:]
+    for i, x in enumerate(others[:-1]):  # A + X_i -> X_{i+1}  (A in every one of them)
+        rts.append(M.rt_make({"A": 1, x: 1}, {others[i + 1]: 1}))
+    rts.append(M.rt_make({"B": 1, "C": 1}, {"B": 2}))  # autocatalysis
+    rts.append(M.rt_make({"A": 2, "D": 1}, {"E": 1}, ir={"A": 3}))  # 5 A + D -> E, rate k A^2 D
+    rts.append(M.rt_make({"M": 1}, {"A": 2}, ip={"A": 1}))  # M -> 3 A
+    rts.append(M.rt_make({"F": 1}, {"G": 1, "A": 1}))
+    rts.append(M.rt_make({"A": 1, "H": 2}, {"A": 2, "I": 1}))  # A on both sides, net +1
+    if variant:
+        rts = rts[::-1] + [M.rt_make({"L": 1}, {"A": 1}), M.rt_make({"K": 1, "A": 1}, {"J": 2}), M.rt_make({"A": 1}, {"M": 1})]
+    return rts
+
+
+def _check_big(res, variant, kmode, vkind):
+    from chempy import Reaction, ReactionSystem
+    from chempy.kinetics.ode import law_of_mass_action_rates, dCdt_list
+
+    rts = _big_system(variant)
+    S = BIG_S
+    primes = [101, 103, 107, 109, 113, 127, 131, 137, 139, 149, 151, 157, 163]
+    conc = {s_: (primes[i] if vkind == "int" else (Fr(primes[i], 7) if vkind == "frac" else primes[i] / 4.0)) for i, s_ in enumerate(S)}
+    case = dict(layer="BIG", variant=variant, kmode=kmode, vkind=vkind)
+    res.states += 1
+    res.transitions += len(rts)
+    res.nontrivial += 1
+    rxns, ks = [], []
+    for j, rt in enumerate(rts):
+        k = KPRIME[j % len(KPRIME)] + (2 if j >= len(KPRIME) else 0)
+        k = k if kmode == "int" else k / 8.0
+        reac, prod, ir, ip = M.rt_dicts(rt)
+        rxns.append(Reaction(reac, prod, k, inact_reac=ir or None, inact_prod=ip or None))
+        ks.append(k)
+    for order in (list(S), list(S)[::-1]):
+        res.evaluations += 2
+        exp = M.system_rates(rts, ks, conc, order)
+        try:
+            rsys = ReactionSystem(rxns, order)
+            got = rsys.rates(dict(conc))
+        except Exception as e:
+            got = "EXC %s: %s" % (type(e).__name__, e)
+        key = "C03|ReactionSystem.rates|large-system|k=%s" % kmode
+        ok = _cmp_rates(res, got, exp, False, (), key, "ReactionSystem(%d reactions over %d substances, A in %d of them).rates(...)" % (len(rts), len(S), sum(1 for rt in rts if "A" in M.rt_keys(rt))), case)
+        try:
+            arr = list(dCdt_list(rsys, list(law_of_mass_action_rates([conc[s_] for s_ in order], rsys))))
+        except Exception as e:
+            arr = "EXC %s: %s" % (type(e).__name__, e)
+        if isinstance(arr, str) or len(arr) != len(order) or not all(same(a, exp[s_]) for a, s_ in zip(arr, order)):
+            ok = False
+            k2 = "C03|dCdt_list|large-system|k=%s" % kmode
+            res.violation(k2, "dCdt_list(law_of_mass_action_rates) on the %d x %d system (order %s): %s, model %s" % (len(rts), len(S), "".join(order), _show(arr), _show([exp[s_] for s_ in order])),
+                          dict(case, expect_key=k2), _show(arr), _show([exp[s_] for s_ in order]))
+        res.outcomes["%s large system variant %d %s/%s" % ("ok" if ok else "WRONG", variant, kmode, vkind)] += 1
 
 
 # ------------------------------------------------------------------------------------------------- layer Z
@@ -704,6 +772,12 @@ def _zsame(got, exp):
 # ------------------------------------------------------------------------------------------------- replay
 def replay(case):
     res = Result()
+    if case["layer"] == "BIG":
+        _check_big(res, case["variant"], case["kmode"], case["vkind"])
+        for v in res.violations:
+            if v["key"] == case.get("expect_key") or not case.get("expect_key"):
+                return dict(key=v["key"], what=v["what"], observed=v["observed"], expected=v["expected"])
+        return dict(key=res.violations[0]["key"], what=res.violations[0]["what"], observed=res.violations[0]["observed"], expected=res.violations[0]["expected"]) if res.violations else None
     if case["layer"] == "Z":
         _check_orders(res, case["za"], case["zb"], case["kmode"], case["vkind"])
         for v in res.violations:
